@@ -59,7 +59,8 @@ CLAIM = dict(
          'three calls on the same argument objects, and OPTION COVERAGE: every optional parameter of every exported function set to '
          'a non-default value one at a time (booleans flipped, numeric options changed, optional arrays / callbacks / dictionaries '
          'supplied) in the history / shared-arguments / poison streams; the shared-arguments stream is repeated for three memory '
-         'layouts of the inputs (C-ordered, Fortran-ordered, all TT-ranks 1); a result-mutation stream (call, overwrite the returned '
+         'layouts of the inputs (C-ordered, Fortran-ordered, all TT-ranks 1) and for list / exact-dtype ndarray / single-item forms of '
+         'index, point and grid-option arguments; history with DIFFERENT data (f(x1) then f(x2) against f(x2) first in a fresh import); a result-mutation stream (call, overwrite the returned '
          'objects in place, call again, compare bytes with a snapshot); the pairs not exercised are listed in the evidence '
          '(coverage.options_not_exercised)) -- that part is '
          'validation, not proof. For np.empty the translator only checks that a store is executed on every path; that the '
@@ -497,6 +498,8 @@ def check_shared_args(E, seeds, fails, stats, only=None):
         np.random.seed(4)
         refs[key] = run_call(t)[0]
     before = {a: canon(getattr(E, a)) for a in attrs}
+    store = E.__dict__.get('_form_store', {})
+    sbefore = {k: canon([v[0], sorted(v[1].items(), key=lambda kv: kv[0])]) for k, v in store.items()}
     _SHARE[0] = True
     try:
         for rnd in range(3):
@@ -511,11 +514,17 @@ def check_shared_args(E, seeds, fails, stats, only=None):
                                       got=short(r), expected=short(refs[key])))
                     refs[key] = r
                 bad = [a for a in attrs if canon(getattr(E, a)) != before[a]]
+                for k, v in store.items():
+                    c = canon([v[0], sorted(v[1].items(), key=lambda kv: kv[0])])
+                    if c != sbefore[k]:
+                        bad.append(f'arguments of {k[0]} [form {k[1]}: {k[2]}{", single item" if k[3] else ""}]')
+                        sbefore[k] = c
                 if bad:
                     fails.append(dict(what=f'{key[0]}: the argument objects {bad} were modified by the call (later calls on the same objects '
                                            f'see other data)', input=dict(recipe=['shared', key[0], key[1]], seed=key[2], layout=E.layout, mode='shared-arguments')))
                     for a in bad:
-                        before[a] = canon(getattr(E, a))
+                        if a in before:
+                            before[a] = canon(getattr(E, a))
     finally:
         _SHARE[0] = False
 
@@ -872,6 +881,56 @@ def sys_alternatives(E, fname, pname, default):
     return None
 
 
+def sys_extra_bases(E):
+    """further base calls: vector-valued grid options and index / point arguments in LIST form (their ndarray forms of the exact
+    dtype the function converts to, and their single-item forms, are derived automatically)"""
+    X3 = [[-0.3, 0.7, 0.1], [0.95, -0.9, 0.49], [0., 0., 0.], [-1.2, 1.3, 0.5]]
+    I3 = [[0, 1, 2], [3, 4, 1], [2, 0, 0]]
+    a3, b3, n3 = [-1., -2., -1.], [1., 3., 1.], [4, 5, 6]
+    L = {
+        'poi_to_ind': [(lambda: [cp(X3), list(a3), list(b3), list(n3)], {}), (lambda: [cp(X3), list(a3), list(b3), list(n3)], dict(kind='cheb'))],
+        'ind_to_poi': [(lambda: [cp(I3), list(a3), list(b3), list(n3)], {}), (lambda: [cp(I3), list(a3), list(b3), list(n3)], dict(kind='cheb'))],
+        'poi_scale': [(lambda: [cp(X3), list(a3), list(b3)], {}), (lambda: [cp(X3), list(a3), list(b3)], dict(kind='cheb'))],
+        'grid_prep_opt': [(lambda: [list(n3)], dict(kind=int)), (lambda: [list(a3)], {}), (lambda: [list(n3)], dict(kind=int, reps=2))],
+        'grid_prep_opts': [(lambda: [list(a3), list(b3), list(n3)], {}), (lambda: [list(a3), list(b3), list(n3)], dict(reps=2))],
+        'grid_flat': [(lambda: [list(n3)], {})],
+        'ind_tt_to_qtt': [(lambda: [[[0, 1, 3], [2, 3, 1]], 4], {})],
+        'ind_qtt_to_tt': [(lambda: [[[0, 1, 1, 0], [1, 1, 0, 0]], 2], {})],
+        'get': [(lambda: [cp(E.Y), [1, 2, 0]], {})], 'get_many': [(lambda: [cp(E.Y), [[1, 2, 0], [3, 4, 2]]], {})],
+        'get_and_grad': [(lambda: [cp(E.Y), [1, 2, 0]], {})],
+        'delta': [(lambda: [list(E.n), [1, 2, 0]], {})], 'const': [(lambda: [list(E.n)], dict(I_zero=[[0, 0, 0], [1, 2, 1]], i_non_zero=[1, 1, 1]))],
+        'poly': [(lambda: [list(E.n)], dict(shift=[0.5, 0., -0.5]))],
+        'sample_rand_poi': [(lambda: [list(a3), list(b3), 5], dict(seed=7))],
+        'func_get': [(lambda: [cp(X3), E.tn.func_int(cp(E.Y0)), list(a3), list(b3)], {})],
+        'func_gets': [(lambda: [cp(E.A)], dict(m=[5, 6, 4]))],
+        'func_sum': [(lambda: [cp(E.A), list(a3), list(b3)], {})],
+        'interface': [(lambda: [cp(E.Y)], dict(i=[1, 2, 0])), (lambda: [cp(E.Y)], dict(P=[[.25] * 4, [.2] * 5, [1 / 3] * 3]))],
+        'mean': [(lambda: [cp(E.Y)], dict(P=[[.25] * 4, [.2] * 5, [1 / 3] * 3]))],
+        'rand': [(lambda: [list(E.n), [1, 2, 3, 1]], dict(seed=7))], 'sample_lhs': [(lambda: [list(E.n), 7], dict(seed=7))],
+        'sample_rand': [(lambda: [list(E.n), 7], dict(seed=7))], 'sample_tt': [(lambda: [list(E.n)], dict(r=2, seed=7))],
+        'accuracy_on_data': [(lambda: [cp(E.Y0), E.I.tolist(), E.y.tolist()], {})],
+        'als': [(lambda: [E.I.tolist(), E.y.tolist(), cp(E.Y0)], dict(nswp=2))],
+        'als_func': [(lambda: [E.X.tolist(), E.yx.tolist(), cp(E.Y0)], dict(nswp=2)), (lambda: [E.X.tolist(), E.yx.tolist(), cp(E.Y0)], dict(nswp=2, update_sol=True))],
+        'anova': [(lambda: [E.I.tolist(), E.y.tolist()], dict(seed=7))], 'anova_func': [(lambda: [E.X.tolist(), E.yx.tolist(), 4], {})],
+        'maxvol': [(lambda: [E.M.tolist()], {})], 'matrix_skeleton': [(lambda: [E.M.tolist()], {})],
+        'optima_tt_beam': [(lambda: [cp(E.Y)], dict(k=3))],
+    }
+    return L
+
+
+def exact_arrays(x, depth=0):
+    """lists / tuples of numbers -> ndarray of the exact dtype the library converts to (int64 for integers, float64 for
+    floats); lists of arrays (TT-tensors) and everything else unchanged"""
+    if isinstance(x, (list, tuple)) and x and depth < 3:
+        flat = np.asarray(x, dtype=object).ravel().tolist() if all(not isinstance(y, np.ndarray) for y in x) else None
+        if flat is not None and flat and all(isinstance(y, (int, float, np.integer, np.floating)) and not isinstance(y, bool) for y in flat):
+            try:
+                return np.array(x, dtype=np.int64 if all(isinstance(y, (int, np.integer)) for y in flat) else np.float64)
+            except ValueError:
+                return x
+    return x
+
+
 def systematic_recipes(E):
     """-> (dict label -> thunk, list of (function, parameter, reason) that could not be exercised).  One recipe per exported
     function with all options at their defaults and one per (function, optional parameter, non-default value)."""
@@ -934,6 +993,32 @@ def systematic_recipes(E):
                     lab += ' [documented in-place]'
                 R[lab] = mk(kw=kw)
                 R[lab].param = (nm, pn)
+    # argument FORMS of the base calls: lists as given, ndarrays of the exact dtype (built ONCE, so that the shared-arguments
+    # stream hands the very same array objects to every call), single item / single point forms of both
+    single = {'poi_to_ind', 'ind_to_poi', 'poi_scale', 'ind_tt_to_qtt', 'ind_qtt_to_tt', 'get_many', 'func_get'}
+    store = E.__dict__.setdefault('_form_store', {})
+    for nm, lst in sys_extra_bases(E).items():
+        if not hasattr(tn, nm):
+            continue
+        for j, (mk_args, kw) in enumerate(lst):
+            variants = [('lists', lambda a: a, lambda k: k), ('exact-dtype ndarrays', lambda a: [exact_arrays(x) for x in a],
+                                                             lambda k: {x: exact_arrays(v) for x, v in k.items()})]
+            for vname, fa, fk in variants:
+                for one in ([False, True] if nm in single else [False]):
+                    key = (nm, j, vname, one)
+                    if key not in store:
+                        a = fa(mk_args())
+                        if one:
+                            pos = 1 if nm in ('get_many',) else 0
+                            a = list(a)
+                            a[pos] = a[pos][0]
+                        store[key] = (a, fk(dict(kw)))
+
+                    def th(key=key, nm=nm):
+                        a, k = store[key]
+                        return getattr(E.tn, nm)(*[x if callable(x) else cp(x) for x in a], **{x: cp(v) for x, v in k.items()})
+                    kws = ', '.join(f'{x}={short(v, 20)}' for x, v in kw.items())
+                    R[f'{nm}[form {j}: {vname}{", single item" if one else ""}{"; " + kws if kws else ""}]'] = th
     return R, missing
 
 
@@ -1045,16 +1130,20 @@ def history_probe(rng_seed, seeds, fails, stats, only=None):
         th = all_thunks(E, seeds, degenerate=False)
         if only and 'history' not in only:
             th = [(k, t) for k, t in th if k[0] in only]
+        th2 = [(k, t) for k, t in all_thunks(Env(tn, C.Rng(rng_seed + 1)), seeds, degenerate=False)
+               if not only or 'history' in only or k[0] in only]
+        if phase == 'D':
+            # other data FIRST in a fresh state: the reference for "f(x1), then f(x2)" of the first import
+            for key, t in th2:
+                res.setdefault(('other data',) + key, []).append(('D2', run_call(t)[0]))
         order = th if phase == 'A' else th[::-1]
         for key, t in order:
             res.setdefault(key, []).append((phase, run_call(t)[0]))
         if phase == 'A':
             for key, t in th[::-1]:
                 res[key].append(('B', run_call(t)[0]))
-            E2 = Env(tn, C.Rng(rng_seed + 1))
-            for key, t in all_thunks(E2, seeds, degenerate=False):
-                if not only or 'history' in only or key[0] in only:
-                    run_call(t)
+            for key, t in th2:
+                res.setdefault(('other data',) + key, []).append(('A2', run_call(t)[0]))
             for key, t in th:
                 res[key].append(('C', run_call(t)[0]))
             # E: after a block of calls that raise;  R: after importlib.reload of the package and of its modules
@@ -1073,18 +1162,19 @@ def history_probe(rng_seed, seeds, fails, stats, only=None):
                 res[key].append(('R', run_call(t)[0]))
     names = dict(A='first call after a fresh import', B='second call', C='call after calls on other inputs',
                  E='call after a block of calls that raised exceptions', R='call after importlib.reload of teneva and its modules',
-                 D='first call after a fresh import, other predecessors')
+                 D='call in a second fresh import, after calls on other inputs and other predecessors',
+                 A2='call on the second data set after the same function was called on the first data set',
+                 D2='first call after a fresh import on the second data set')
     for key, lst in res.items():
         stats['evals'] += len(lst)
         stats['keys'].append(('history',) + key)
         for ph, r in lst[1:]:
             if r != lst[0][1]:
-                f = dict(what=f'{key[0]}: same arguments{" and integer seed" if key[2] is not None else ""}, but the {names[ph]} '
+                kn = key[1] if key[0] == 'other data' else key[0]
+                f = dict(what=f'{kn}: same arguments, but the {names[ph]} '
                               f'differs from the {names[lst[0][0]]} (the result depends on earlier calls)',
-                         input=dict(recipe=['history', key[0], key[1]], seed=key[2], phases=[lst[0][0], ph], mode='call-history'),
+                         input=dict(recipe=['history'] + [str(x) for x in key[:-1]], seed=key[-1], phases=[lst[0][0], ph], mode='call-history'),
                          got=short(r), expected=short(lst[0][1]))
-                if finding_key_of(key[0]):
-                    f['finding_key'] = finding_key_of(key[0])
                 fails.append(f)
                 break
     C.import_teneva()
